@@ -202,8 +202,9 @@ Proof.
 Qed.
 
 (* ------------------------------------------------------------------------------------ *)
-(** * what is positioned is result.counts ONLY: a weighted count measure is overwritten
-      (finding C06-augment-overwrites-weighted-count; the model is faithful to the code) *)
+(** * result.counts AND the count measure are positioned, each from its own data (the repaired
+      defect C06-augment-overwrites-weighted-count: the weighted counts used to be overwritten
+      with the positioned unweighted counts) *)
 
 Definition aug_witness_summary : cube_desc :=
   mkCube [mkDim DCat [false; false; true]]
@@ -214,18 +215,37 @@ Definition aug_witness_filter : cube_desc :=
          [mkElem 0 false (Some 1); mkElem (-1) true None] true
          (mkPayload [Fin 2; Fin 0] (Some [Fin 5; Fin 0]) None None).
 
-Lemma augment_weighted_refuted :
-  exists summary c c',
-    augment_cube summary c = Some c'
+(* for every summary / filter cube pair: whenever the augmentation succeeds, the augmented count
+   measure is the filter cube's own count measure positioned like result.counts *)
+Lemma augment_cube_count_positioned summary c c' cnt :
+  length (p_counts (cd_payload c)) <> length (p_counts (cd_payload summary)) ->
+  p_count (cd_payload c) = Some cnt ->
+  augment_cube summary c = Some c' ->
+  Some (p_counts (cd_payload c'))
+    = augment_counts (cd_elems0 summary) (cd_elems0 c) (length (p_counts (cd_payload summary)))
+                     (p_counts (cd_payload c))
+  /\ option_map Some (p_count (cd_payload c'))
+     = Some (augment_counts (cd_elems0 summary) (cd_elems0 c) (length (p_counts (cd_payload summary))) cnt).
+Proof.
+  intros Hlen Hcnt. unfold augment_cube.
+  destruct (length (p_counts (cd_payload c)) =? length (p_counts (cd_payload summary))) eqn:E;
+    [apply Nat.eqb_eq in E; contradiction|].
+  destruct (augment_counts (cd_elems0 summary) (cd_elems0 c)
+              (length (p_counts (cd_payload summary))) (p_counts (cd_payload c))) as [data|]; [|discriminate].
+  rewrite Hcnt.
+  destruct (augment_counts (cd_elems0 summary) (cd_elems0 c)
+              (length (p_counts (cd_payload summary))) cnt) as [cdata|]; [|discriminate].
+  intros H. inversion H; subst. simpl. split; reflexivity.
+Qed.
+
+Lemma augment_weighted_former_witness :
+  exists c',
+    augment_cube aug_witness_summary aug_witness_filter = Some c'
     (* the filter cube's own weighted counts ... *)
-    /\ weighted_counts_payload (cd_payload c) = [Fin 5; Fin 0]
-    (* ... belong at these positions of the summary's elements ... *)
-    /\ augment_counts (cd_elems0 summary) (cd_elems0 c) 3 (weighted_counts_payload (cd_payload c))
-       = Some [Fin 0; Fin 5; Fin 0]
-    (* ... but the augmented cube's weighted counts are the positioned UNWEIGHTED counts *)
-    /\ weighted_counts_payload (cd_payload c') = [Fin 0; Fin 2; Fin 0]
+    /\ weighted_counts_payload (cd_payload aug_witness_filter) = [Fin 5; Fin 0]
+    (* ... now sit at their positions among the summary's elements (they were [0; 2; 0]) ... *)
+    /\ weighted_counts_payload (cd_payload c') = [Fin 0; Fin 5; Fin 0]
     /\ unweighted_counts_payload (cd_payload c') = [Fin 0; Fin 2; Fin 0].
 Proof.
-  exists aug_witness_summary, aug_witness_filter.
   eexists. split; [vm_compute; reflexivity|]. repeat split; vm_compute; reflexivity.
 Qed.
